@@ -1,6 +1,8 @@
 //! C05: binding isolation over statement histories. Case: `session <stmt>;;<stmt>…`
 //!  D:<mut 0|1>:<name>:<expr>   A:<name>:<expr>   I:<name>:<i,j>:<v>   P:<name>:<expr>   T:<a,b>:<t>
-//!  expr: n<int> | m<r>x<c>/<e,…> | b<id> | t<e,…> | v<name> | c<name> | x
+//!  Q:<s|m>:<name>:<expr> (-=, *=)   F:<name>:<field>:<expr> (record field / table column assignment)
+//!  expr: n<int> | m<r>x<c>/<e,…> | b<id> | t<e,…> | v<name> | c<name> | x | r<f=int,…> (record) |
+//!        T<rows>/<col=int,…>/… (table)
 use crate::common::*;
 use crate::interp::*;
 use mech_interpreter::*;
@@ -16,6 +18,15 @@ fn expr_src(e: &str) -> String {
     "t" => format!("({})", rest),
     "v" => rest.to_string(),
     "c" => format!("{} + 0", rest),
+    "r" => format!("{{{}}}", rest.split(',').map(|f| { let (k, v) = f.split_once('=').unwrap(); format!("{}: {}", k, v) }).collect::<Vec<_>>().join(", ")),
+    "T" => {
+      let parts: Vec<&str> = rest.split('/').collect();
+      let rows: usize = parts[0].parse().unwrap();
+      let cols: Vec<(&str, Vec<&str>)> = parts[1..].iter().map(|c| { let (k, v) = c.split_once('=').unwrap(); (k, v.split(',').collect()) }).collect();
+      let mut t = format!("|{}|", cols.iter().map(|c| format!("{}<f64>", c.0)).collect::<Vec<_>>().join(" "));
+      for i in 0..rows { t.push_str(&format!(" {} |", cols.iter().map(|c| c.1[i].to_string()).collect::<Vec<_>>().join(" "))); }
+      t
+    }
     "m" => {
       let (shape, body) = rest.split_once('/').unwrap();
       let (r, c) = shape.split_once('x').unwrap();
@@ -38,6 +49,8 @@ pub fn stmt_src(s: &str) -> String {
     "I" => { let ix: Vec<&str> = p[2].split(',').collect(); if ix.len() == 1 { format!("{}[{}] = {}", p[1], ix[0], p[3]) } else { format!("{}[[{}]] = {}", p[1], ix.join(" "), p[3]) } }
     "P" => format!("{} += {}", p[1], expr_src(p[2])),
     "T" => format!("({}) := {}", p[1], p[2]),
+    "Q" => format!("{} {} {}", p[2], if p[1] == "s" { "-=" } else { "*=" }, expr_src(p[3])),
+    "F" => format!("{}.{} = {}", p[1], p[2], expr_src(p[3])),
     _ => panic!("bad stmt {}", s),
   }
 }
@@ -62,16 +75,34 @@ pub fn exec(case: &str) -> String {
     let tree = match parse_code(&src) { Ok(t) => t, Err(e) => return format!("harness:{}:{}", e, hexs(&src)) };
     let status = match std::panic::catch_unwind(std::panic::AssertUnwindSafe(|| intrp.interpret(&tree))) {
       Ok(Ok(_)) => "ok", Ok(Err(_)) => "err", Err(_) => return "hostpanic".to_string() };
-    out.push(format!("{}#{}", status, snapshot(&intrp)));
+    // the model computes with integers: a product such as -9 * 0 is 0 there and -0.0 in the code; the sign
+    // of a zero is immaterial to this property, so -0.0 is written as 0.0
+    out.push(format!("{}#{}", status, snapshot(&intrp).replace("8000000000000000", "0000000000000000")));
   }
   out.join("@")
 }
 
+/// a value of the session's favourite kind (so that assignments and op-assignments mostly fit their target)
+fn gen_kind_expr(rng: &mut Rng, kind: u64) -> String {
+  let ints = |rng: &mut Rng, n: usize, lo: i64, hi: i64| (0..n).map(|_| rng.range(lo, hi).to_string()).collect::<Vec<_>>().join(",");
+  match kind {
+    0 => format!("n{}", rng.range(-9, 20)),
+    1 => format!("m1x3/{}", ints(rng, 3, 0, 9)),
+    2 => format!("m3x1/{}", ints(rng, 3, 0, 9)),
+    3 => format!("m2x2/{}", ints(rng, 4, 0, 9)),
+    4 => format!("ra={},b={}", rng.range(0, 9), rng.range(0, 9)),
+    _ => format!("T3/a={}/b={}", ints(rng, 3, 0, 9), ints(rng, 3, 0, 9)),
+  }
+}
+
 fn gen_value_expr(rng: &mut Rng) -> String {
-  match rng.below(10) {
+  match rng.below(11) {
     0 | 1 | 2 => format!("n{}", rng.range(-9, 20)),
     3 | 4 => { let n = 2 + rng.below(3) as usize; format!("m1x{}/{}", n, (0..n).map(|_| rng.range(0, 9).to_string()).collect::<Vec<_>>().join(",")) }
-    5 => format!("m2x2/{}", (0..4).map(|_| rng.range(0, 9).to_string()).collect::<Vec<_>>().join(",")),
+    5 => if rng.chance(1, 2) { format!("m2x2/{}", (0..4).map(|_| rng.range(0, 9).to_string()).collect::<Vec<_>>().join(",")) }
+         else { let n = 2 + rng.below(2) as usize; format!("m{}x1/{}", n, (0..n).map(|_| rng.range(0, 9).to_string()).collect::<Vec<_>>().join(",")) },
+    8 => format!("ra={},b={}", rng.range(0, 9), rng.range(0, 9)),
+    9 => { let rows = 2 + rng.below(2) as usize; format!("T{}/a={}/b={}", rows, (0..rows).map(|_| rng.range(0, 9).to_string()).collect::<Vec<_>>().join(","), (0..rows).map(|_| rng.range(0, 9).to_string()).collect::<Vec<_>>().join(",")) }
     6 => format!("b{}", rng.below(4)),
     7 => format!("t{},{}", rng.range(1, 9), rng.range(1, 9)),
     _ => format!("n{}", rng.range(0, 5)),
@@ -88,41 +119,94 @@ pub fn generate(seed: u64, thorough: bool, sink: &mut Sink) -> Vec<String> {
     let alias_free = it % 2 == 0;
     let len = 2 + rng.below(if thorough { 7 } else { 5 }) as usize;
     let mut stmts: Vec<String> = vec![];
-    // the generator tracks which names are probably defined / mutable so that most statements are valid
-    let mut defined: Vec<(&str, bool)> = vec![];
+    // what the generator believes each name holds: (name, mutable, kind, length), kind as in `gen_kind_expr`
+    // (0 number, 1 row vector, 2 column vector, 3 2x2 matrix, 4 record, 5 table, 6 other); three statements in
+    // four are built to be valid against that belief, the fourth is free
+    let mut st: Vec<(&str, bool, u64, usize)> = vec![];
+    let session_kind = rng.below(6);
+    fn kind_of(e: &str, st: &Vec<(&str, bool, u64, usize)>) -> Option<(u64, usize)> {
+      let rest = &e[1..];
+      match &e[..1] {
+        "n" => Some((0, 1)),
+        "m" => { let shape = rest.split('/').next().unwrap(); let (r, c) = shape.split_once('x').unwrap(); let (r, c): (usize, usize) = (r.parse().unwrap(), c.parse().unwrap());
+                 Some(if r == 1 { (1, c) } else if c == 1 { (2, r) } else { (3, r * c) }) }
+        "r" => Some((4, 0)),
+        "T" => Some((5, rest.split('/').next().unwrap().parse().unwrap())),
+        "b" | "t" => Some((6, 0)),
+        "v" | "c" => st.iter().find(|x| x.0 == rest).map(|x| (x.2, x.3)),
+        _ => None,
+      }
+    }
+    let lit_of = |rng: &mut Rng, k: u64, n: usize| -> String {
+      let ints = |rng: &mut Rng, n: usize| (0..n).map(|_| rng.range(0, 9).to_string()).collect::<Vec<_>>().join(",");
+      match k { 0 => format!("n{}", rng.range(-9, 20)), 1 => format!("m1x{}/{}", n, ints(rng, n)), 2 => format!("m{}x1/{}", n, ints(rng, n)), 3 => format!("m2x2/{}", ints(rng, 4)),
+                4 => format!("ra={},b={}", rng.range(0, 9), rng.range(0, 9)), 5 => format!("T{}/a={}/b={}", n, ints(rng, n), ints(rng, n)), _ => format!("b{}", rng.below(4)) } };
     for _ in 0..len {
       let valid = rng.chance(3, 4);
-      let fresh: Vec<&str> = names.iter().copied().filter(|n| !defined.iter().any(|(d, _)| d == n)).collect();
-      let pick_defined = |rng: &mut Rng, defined: &Vec<(&str, bool)>, want_mut: bool| -> Option<&'static str> {
-        let pool: Vec<&str> = defined.iter().filter(|(_, m)| !want_mut || *m).map(|(d, _)| *d).collect();
-        if pool.is_empty() { None } else { let x = *rng.pick(&pool); names.iter().copied().find(|n| *n == x) } };
-      let other = if valid { pick_defined(&mut rng, &defined, false).unwrap_or("a") } else { *rng.pick(&names) };
-      let expr = |rng: &mut Rng| -> String {
-        match rng.below(10) {
-          0 | 1 | 2 => if alias_free { format!("c{}", other) } else { format!("v{}", other) },
-          3 => format!("c{}", other),
-          4 => if valid { gen_value_expr(rng) } else { "x".to_string() },
-          _ => gen_value_expr(rng),
-        }
-      };
-      let kind = rng.below(12);
-      let s = if kind <= 3 || defined.is_empty() {
-        let nm = if valid && !fresh.is_empty() { *rng.pick(&fresh) } else { *rng.pick(&names) };
-        let m = rng.below(2);
-        if !defined.iter().any(|(d, _)| *d == nm) { defined.push((nm, m == 1)); }
-        format!("D:{}:{}:{}", m, nm, expr(&mut rng))
+      let fresh: Vec<&str> = names.iter().copied().filter(|n| !st.iter().any(|x| x.0 == *n)).collect();
+      let any_name = *rng.pick(&names);
+      // a source expression: of kind (k, n) when asked for, else free
+      let source = |rng: &mut Rng, want: Option<(u64, usize)>, st: &Vec<(&str, bool, u64, usize)>| -> String {
+        match want {
+          Some((k, n)) => {
+            let same: Vec<&str> = st.iter().filter(|x| x.2 == k && x.3 == n && k <= 3).map(|x| x.0).collect();
+            if !same.is_empty() && rng.chance(1, 2) { let o = *rng.pick(&same); if alias_free || rng.chance(1, 2) { format!("c{}", o) } else { format!("v{}", o) } } else { lit_of(rng, k, n) } }
+          None => match rng.below(8) {
+            0 => "x".to_string(),
+            1 | 2 => { let o = if st.is_empty() { any_name } else { rng.pick(st).0 }; if alias_free { format!("c{}", o) } else { format!("v{}", o) } }
+            3 | 4 => gen_kind_expr(rng, session_kind),
+            _ => gen_value_expr(rng) } } };
+      let muts: Vec<(&str, bool, u64, usize)> = st.iter().filter(|x| x.1).cloned().collect();
+      let kind = rng.below(16);
+      let s = if kind <= 3 || st.is_empty() {
+        // definition: a fresh name when valid, mutable two times in three
+        let nm = if valid && !fresh.is_empty() { *rng.pick(&fresh) } else { any_name };
+        let m = if rng.chance(2, 3) { 1 } else { 0 };
+        let e = if valid && rng.chance(1, 2) { gen_kind_expr(&mut rng, session_kind) } else { source(&mut rng, None, &st) };
+        if !st.iter().any(|x| x.0 == nm) { if let Some((k, n)) = kind_of(&e, &st) { if !(e.starts_with('c') && k > 3) { st.push((nm, m == 1, k, n)); } } }
+        format!("D:{}:{}:{}", m, nm, e)
       } else {
-        let nm = if valid { pick_defined(&mut rng, &defined, true).unwrap_or(*rng.pick(&names)) } else { *rng.pick(&names) };
+        // a target the statement fits (when valid and one exists), else any name
+        let pick_target = |rng: &mut Rng, ok: &dyn Fn(&(&str, bool, u64, usize)) -> bool| -> Option<(&str, bool, u64, usize)> {
+          let pool: Vec<(&str, bool, u64, usize)> = muts.iter().filter(|x| ok(x)).cloned().collect();
+          if valid && !pool.is_empty() { Some(*rng.pick(&pool)) } else { None } };
         match kind {
-          4 | 5 | 6 => format!("A:{}:{}", nm, expr(&mut rng)),
-          7 => format!("I:{}:{}:{}", nm, rng.range(0, 5), rng.range(0, 9)),
-          8 => format!("I:{}:{},{}:{}", nm, rng.range(1, 3), rng.range(1, 7), rng.range(0, 9)),
-          9 | 10 => format!("P:{}:{}", nm, expr(&mut rng)),
-          _ => if alias_free { format!("A:{}:n{}", nm, rng.range(0, 9)) } else {
+          4 | 5 | 6 => match pick_target(&mut rng, &|x| x.2 <= 3) {
+            Some(t) => format!("A:{}:{}", t.0, source(&mut rng, Some((t.2, t.3)), &st)),
+            None => format!("A:{}:{}", any_name, source(&mut rng, None, &st)) },
+          7 => match pick_target(&mut rng, &|x| x.2 >= 1 && x.2 <= 3) {
+            Some(t) => format!("I:{}:{}:{}", t.0, 1 + rng.below(t.3 as u64), rng.range(0, 9)),
+            None => format!("I:{}:{}:{}", any_name, rng.range(0, 5), rng.range(0, 9)) },
+          8 => match pick_target(&mut rng, &|x| x.2 >= 1 && x.2 <= 3) {
+            Some(t) => format!("I:{}:{},{}:{}", t.0, 1 + rng.below(t.3 as u64), if rng.chance(1, 5) { t.3 as u64 + 3 } else { 1 + rng.below(t.3 as u64) }, rng.range(0, 9)),
+            None => format!("I:{}:{},{}:{}", any_name, rng.range(1, 3), rng.range(1, 7), rng.range(0, 9)) },
+          // (`+=` on a table appends rows: not an op-assignment in the sense of this property, not generated)
+          9 | 10 | 12 => { let op = if kind == 12 { if rng.chance(1, 2) { "Q:s:" } else { "Q:m:" } } else { "P:" };
+            match pick_target(&mut rng, &|x| x.2 <= 3) {
+              Some(t) => { let src = if t.2 >= 1 && rng.chance(1, 4) { format!("n{}", rng.range(0, 9)) } else { source(&mut rng, Some((t.2, t.3)), &st) }; format!("{}{}:{}", op, t.0, src) }
+              None => { let tn = any_name; if st.iter().any(|x| x.0 == tn && x.2 >= 4) { format!("A:{}:{}", tn, source(&mut rng, None, &st)) } else { format!("{}{}:{}", op, tn, source(&mut rng, None, &st)) } } } }
+          13 | 14 | 15 => {
+            // field / column assignment: to a name that holds a record or a table, mostly with a fitting source
+            match pick_target(&mut rng, &|x| x.2 == 4 || x.2 == 5) {
+              Some(t) => {
+                let field = if rng.chance(1, 8) { "z" } else if rng.chance(1, 2) { "a" } else { "b" };
+                let src = if t.2 == 4 {
+                  match rng.below(10) { 0 => format!("c{}", any_name), 1 => format!("v{}", any_name), 2 => "m1x2/1,2".to_string(), 3 => "b1".to_string(), _ => format!("n{}", rng.range(0, 30)) }
+                } else {
+                  let rows = t.3;
+                  let n = match rng.below(8) { 0 => rows + 1, 1 => rows.saturating_sub(1).max(1), _ => rows };
+                  match rng.below(10) { 0 => format!("n{}", rng.range(0, 9)), 1 => format!("m1x{}/{}", n, (0..n).map(|_| rng.range(0, 9).to_string()).collect::<Vec<_>>().join(",")),
+                    2 => format!("v{}", any_name), _ => format!("m{}x1/{}", n, (0..n).map(|_| rng.range(10, 40).to_string()).collect::<Vec<_>>().join(",")) }
+                };
+                format!("F:{}:{}:{}", t.0, field, src) }
+              None => if rng.chance(1, 3) { format!("F:{}:{}:n{}", any_name, if rng.chance(1, 2) { "a" } else { "b" }, rng.range(0, 9)) } else { format!("A:{}:{}", any_name, source(&mut rng, None, &st)) } } }
+          _ => if alias_free { match pick_target(&mut rng, &|x| x.2 == 0) { Some(t) => format!("A:{}:n{}", t.0, rng.range(0, 9)), None => format!("A:{}:n{}", any_name, rng.range(0, 9)) } } else {
+            let tuples: Vec<&str> = st.iter().filter(|x| x.2 == 6).map(|x| x.0).collect();
+            let tn = if valid && !tuples.is_empty() { *rng.pick(&tuples) } else { any_name };
             let (x, y) = if valid && fresh.len() >= 2 { (fresh[0], fresh[1]) } else { (*rng.pick(&names), *rng.pick(&names)) };
-            if !defined.iter().any(|(d, _)| *d == x) { defined.push((x, true)); }
-            if !defined.iter().any(|(d, _)| *d == y) { defined.push((y, true)); }
-            format!("T:{},{}:{}", x, y, other) },
+            if !st.iter().any(|z| z.0 == x) { st.push((x, true, 0, 1)); }
+            if !st.iter().any(|z| z.0 == y) { st.push((y, true, 0, 1)); }
+            format!("T:{},{}:{}", x, y, tn) },
         }
       };
       sink.hit(&format!("stmt:{}", &s[..1]));
@@ -140,6 +224,8 @@ pub fn generate(seed: u64, thorough: bool, sink: &mut Sink) -> Vec<String> {
     cases.push(format!("session\tD:1:a:m1x3/1,2,3;;D:0:b:va;;I:a:2:{};;A:a:m1x3/7,8,9;;P:a:n1", v));
     cases.push(format!("session\tD:1:a:t1,2;;T:b,c:a;;A:b:n{};;T:d,b:a", v));
     cases.push(format!("session\tD:1:a:m1x3/1,2,3;;I:a:1,7:{};;D:0:b:ca", v));
+    cases.push(format!("session\tD:1:a:ra=1,b=2;;D:0:b:va;;F:a:a:n{};;F:a:b:n{}", v, v + 1));
+    cases.push(format!("session\tD:1:a:T2/a=1,2/b=3,4;;D:0:c:n7;;F:a:b:m3x1/{},1,2;;F:a:a:m2x1/{},5;;F:c:a:n1", v, v));
     sink.hit("pattern:sharing");
   }
   cases
